@@ -192,3 +192,18 @@ def m_ptr_eq(ex, site, a):
         try: return ex.load(x) is ex.load(y) and isinstance(ex.load(x), (Agg, VecV))
         except Panic: return False
     return x is y
+
+
+@model(rx(r'^(slice::)?Iter::as_slice$'), 'Iter::as_slice', 'IterMut::as_slice', 'IntoIter::as_slice')
+def m_iter_as_slice(ex, site, a):
+    """the elements a slice iterator has not yielded yet"""
+    from .models_iter import IterV
+    it = a[0]
+    while isinstance(it, Ptr): it = ex.load(it)
+    if not isinstance(it, IterV) or it.src is None: raise Unsupported('as_slice on a lazy iterator')
+    rest = []
+    for v in it.src[it.pos:it.end]:
+        w = v
+        while isinstance(w, Ptr): w = ex.load(w)
+        rest.append(w)
+    return SliceRef(VecV(rest, 'vec'), 0, len(rest), 'slice')
